@@ -857,6 +857,7 @@ var paramSets = []map[string]string{
 	{"a": "$2", "x": "?"},
 	{"true": "FALSE", "n": "5"},
 	{"name": "'bob'", "thr": "3.5"},
+	{"p": "$1", " p": "$2", "p ": "$3", "\tp": "$4", "P": "$5", "p\n": "$6", "n": "7", " n": "8", "thr": "$9", "thr ": "$10"},
 }
 
 // weirdParams: parameter VALUES that are not SQL expressions at all.  Only totality (C12) and the
@@ -935,6 +936,8 @@ func genCompileCases(tier string, emit func(op string, fields ...string)) {
 	}
 	for _, s := range []string{
 		"T | where a.$left == 1", "T | project x = a.b.$right", "T | extend y = strcat(tolower(t.$left), 'x')", "T | join (U | where u.$left == 1) on k",
+		"T | take 1.25e1", "T | limit 12.5e0", "T | top 0.125E2 by x", "T | take .5e0", "T | take 1.05e+1", "T | top 3.14159e2 by x", "T | take 2.5e3", "T | take 1.50e1", "T | take 1e18", "T | take 1e19",
+		"T | render linechart with (title=\"\")", "T | render linechart with (title='')", "T | render linechart with (t=``)", "T | render t with (ymin=-5, title=1+2)", "T | render `` with (a='')",
 		"T | take 1E3", "T | take 1e3", "T | limit 2E+2", "T | top 5E1 by x", "T | take 0E0", "T | take 1.5", "T | take .5", "T | take 1.", "T | take '5'",
 		"T | join (U | take 1E3) on k", "T | take 0x1E3", "T | take 007", "T | top 0x10 by a",
 		"T | take 18446744073709551616", "T | top 100000000000000000000 by a", "T | join kind=inner (U | take 99999999999999999999) on a | count", "T | limit 18446744073709551615",
@@ -1071,6 +1074,8 @@ var evalCorpus = []string{
 	"T | where s =~ 'A' | count", "T | where a == null | count", "T | where a != 1 | count", "T | extend n1 = strcat(s, 'x') | take 3",
 	"T | top 1 by a | sort by b | take 1", "T | take 3 | summarize count()", "T | summarize n1 = count() | take 1",
 	"T | project a, b | take 1 | project a", "T | sort by a | project a", "T | sort by a | where b > 0", "T | take 2 | extend n1 = 1 | sort by a",
+	"let k = 1; T | join (U) on k | count", "let k = 1; T | join kind=leftouter (U) on k, $left.a == $right.a | sort by a | take 3",
+	"let a = 2; let k = a; T | where a > 0 | join kind=inner (U | where k > 0) on k | summarize n1 = count() by k",
 	"let $left = 1; T | join kind=inner (U) on not($left == $right.k) | count", "let $right = 1; T | join kind=inner (U) on not($left.k == $right) | count",
 	"T | summarize by k | join kind=inner (U) on k | join (V) on k", "T | count | extend k = 1 | join kind=leftouter (U) on k | join (V) on k",
 	"T | summarize n1 = count() by k | where n1 > 0 | join kind=inner (U | project k, n2 = b) on k | join kind=innerunique (V | project k, n3 = c) on k",
